@@ -115,3 +115,44 @@ theorem readLv_ok (p : Pool) (pos : Nat → Nat) (n cl : Nat) (hp : PosOk pos n 
   · intro lf hlf; simp only [labOf_of_le hlf hg1, labOf_of_le hlf hg2]
 
 end ClassRead
+
+namespace ClassRead
+open Outcome Spec
+
+/-! ### stack map frames -/
+
+theorem readVType_ok (p : Pool) (pos : Nat → Nat) (n cl : Nat) (hp : PosOk pos n cl) (v : SVType) (hv : v.Legal p n)
+    (l : Labels) (r : Bytes) (hwf : l.WF) (hcl : l.codeLength = cl) (hcnt : l.count + v.labelRefs < 65536) :
+    StepOk l (readVType p l (v.encode pos ++ r)) r v.labelRefs (v.refs pos) (fun lf => v.raw lf pos) := by
+  cases v with
+  | object cp c =>
+    obtain ⟨h1, h2⟩ := hv
+    exact ⟨.object c, l, by simp [readVType, SVType.encode, u8, u16_be16 _ h1, h2], hwf, Labels.Le.refl l, by simp,
+      by simp [SVType.refs], fun lf _ => rfl⟩
+  | uninit t =>
+    have b1 : pos t < 65536 := by have := hp.lt _ hv; have := hp.small; omega
+    obtain ⟨ia, l1, h1, hwf1, hle1, hg1, hc1⟩ := Labels.getOrCreate_spec hwf (pc := pos t) (by rw [hcl]; exact hp.lt _ hv)
+      (by simp [SVType.labelRefs] at hcnt; omega)
+    refine ⟨.uninit ia, l1, by simp [readVType, SVType.encode, u8, u16_be16 _ b1, h1], hwf1, hle1,
+      by simpa [SVType.labelRefs] using hc1, ?_, ?_⟩
+    · intro pc hpc
+      simp only [SVType.refs, List.mem_singleton] at hpc
+      subst hpc; rw [hg1]; rfl
+    · intro lf hlf; simp only [SVType.raw, labOf_of_le hlf hg1]
+  | top => exact ⟨.top, l, by simp [readVType, SVType.encode, u8], hwf, Labels.Le.refl l, by simp, by simp [SVType.refs], fun _ _ => rfl⟩
+  | int => exact ⟨.int, l, by simp [readVType, SVType.encode, u8], hwf, Labels.Le.refl l, by simp, by simp [SVType.refs], fun _ _ => rfl⟩
+  | float => exact ⟨.float, l, by simp [readVType, SVType.encode, u8], hwf, Labels.Le.refl l, by simp, by simp [SVType.refs], fun _ _ => rfl⟩
+  | double => exact ⟨.double, l, by simp [readVType, SVType.encode, u8], hwf, Labels.Le.refl l, by simp, by simp [SVType.refs], fun _ _ => rfl⟩
+  | long => exact ⟨.long, l, by simp [readVType, SVType.encode, u8], hwf, Labels.Le.refl l, by simp, by simp [SVType.refs], fun _ _ => rfl⟩
+  | null => exact ⟨.null, l, by simp [readVType, SVType.encode, u8], hwf, Labels.Le.refl l, by simp, by simp [SVType.refs], fun _ _ => rfl⟩
+  | uninitThis => exact ⟨.uninitThis, l, by simp [readVType, SVType.encode, u8], hwf, Labels.Le.refl l, by simp, by simp [SVType.refs], fun _ _ => rfl⟩
+
+theorem readVTypes_ok (p : Pool) (pos : Nat → Nat) (n cl : Nat) (hp : PosOk pos n cl) (vs : List SVType)
+    (hv : ∀ v ∈ vs, v.Legal p n) (l : Labels) (r : Bytes) (hwf : l.WF) (hcl : l.codeLength = cl)
+    (hcnt : l.count + (vs.map SVType.labelRefs).sum < 65536) :
+    StepOk l (readVecS (readVType p) vs.length l (vs.flatMap (SVType.encode pos) ++ r)) r (vs.map SVType.labelRefs).sum
+      (vs.flatMap (SVType.refs pos)) (fun lf => vs.map (SVType.raw lf pos)) :=
+  readVecS_stepOk (readVType p) (SVType.encode pos) (fun lf v => v.raw lf pos) SVType.labelRefs (SVType.refs pos) cl vs
+    (fun v hvm l r hwf hcl hcnt => readVType_ok p pos n cl hp v (hv v hvm) l r hwf hcl hcnt) l hwf hcl hcnt r
+
+end ClassRead
